@@ -19,8 +19,8 @@ rows.append("| property | tier | functions under contract | obligations | discha
 rows.append("|---|---|---|---|---|---|---|---|")
 for f in sorted(glob.glob('/verif/evidence/C*.json')):
     e=json.load(open(f)); c=e['coverage']
-    b=sum(x.get('cases',0) for x in c.get('bounded',[]))
-    rows.append(f"| {e['property_id']} | {e['tier']} | {len(c.get('functions_under_contract',[]))} | {c['obligations']} | {c['discharged']} | {len(c.get('known_findings',[]))} | {b or ''} | {e['wall_s']} |")
+    b=sum(x.get('cases',0) for x in (c.get('bounded') or []))
+    rows.append(f"| {e['property_id']} | {e['tier']} | {len(c.get('functions_under_contract') or [])} | {c['obligations']} | {c['discharged']} | {len(c.get('known_findings') or [])} | {b or ''} | {e['wall_s']} |")
 s=open('/verif/DESIGN.md').read()
 a=s.index('<!-- SEEDED-TABLE -->')
 bmark='<!-- /SEEDED-TABLE -->'
